@@ -1,0 +1,258 @@
+//! Verification seams for file and memory-mapping calls.
+//!
+//! This module is compiled only with `--cfg simple_sds_verif` and contains no simulation logic.
+//! It provides look-alike [`File`] and [`OpenOptions`] types that forward to an installed [`FsBackend`],
+//! or to [`std::fs`] when no backend is installed, and wrappers around `mmap()` / `munmap()` that can
+//! log the calls and refuse a mapping.
+//! All state is thread-local, and nothing changes unless a backend is installed or a failure is armed.
+
+use std::cell::{Cell, RefCell};
+use std::io::{self, Read, Seek, SeekFrom, Write};
+use std::path::Path;
+
+//-----------------------------------------------------------------------------
+
+/// File system operations as seen by the buffered writers and by `serialize_to` / `load_from`.
+pub trait FsBackend {
+    /// Opens a file and returns a handle.
+    fn open(&mut self, path: &Path, options: &OpenOptions) -> io::Result<u64>;
+    /// Writes a prefix of the buffer and returns its length.
+    fn write(&mut self, handle: u64, buf: &[u8]) -> io::Result<usize>;
+    /// Reads into a prefix of the buffer and returns its length.
+    fn read(&mut self, handle: u64, buf: &mut [u8]) -> io::Result<usize>;
+    /// Moves the file offset.
+    fn seek(&mut self, handle: u64, pos: SeekFrom) -> io::Result<u64>;
+    /// Flushes the file.
+    fn flush(&mut self, handle: u64) -> io::Result<()>;
+    /// Closes the handle. Called when the [`File`] is dropped.
+    fn close(&mut self, handle: u64);
+}
+
+thread_local! {
+    static BACKEND: RefCell<Option<Box<dyn FsBackend>>> = RefCell::new(None);
+}
+
+/// Installs a backend for the current thread and returns the previous one.
+pub fn install(backend: Box<dyn FsBackend>) -> Option<Box<dyn FsBackend>> {
+    BACKEND.with(|b| b.borrow_mut().replace(backend))
+}
+
+/// Removes the backend of the current thread and returns it.
+pub fn uninstall() -> Option<Box<dyn FsBackend>> {
+    BACKEND.with(|b| b.borrow_mut().take())
+}
+
+/// Returns `true` if the current thread has a backend.
+pub fn is_installed() -> bool {
+    BACKEND.with(|b| b.borrow().is_some())
+}
+
+fn with_backend<R, F: FnOnce(&mut dyn FsBackend) -> R>(f: F) -> Option<R> {
+    BACKEND.try_with(|b| {
+        let mut guard = b.borrow_mut();
+        match guard.as_mut() {
+            Some(backend) => Some(f(backend.as_mut())),
+            None => None,
+        }
+    }).unwrap_or(None)
+}
+
+//-----------------------------------------------------------------------------
+
+/// Look-alike of [`std::fs::OpenOptions`] with the options used in this crate.
+#[derive(Clone, Debug, Default)]
+pub struct OpenOptions {
+    /// Open for reading.
+    pub read: bool,
+    /// Open for writing.
+    pub write: bool,
+    /// Create the file if it does not exist.
+    pub create: bool,
+    /// Truncate an existing file.
+    pub truncate: bool,
+}
+
+impl OpenOptions {
+    /// See [`std::fs::OpenOptions::new`].
+    pub fn new() -> Self {
+        Self::default()
+    }
+
+    /// See [`std::fs::OpenOptions::read`].
+    pub fn read(&mut self, value: bool) -> &mut Self {
+        self.read = value; self
+    }
+
+    /// See [`std::fs::OpenOptions::write`].
+    pub fn write(&mut self, value: bool) -> &mut Self {
+        self.write = value; self
+    }
+
+    /// See [`std::fs::OpenOptions::create`].
+    pub fn create(&mut self, value: bool) -> &mut Self {
+        self.create = value; self
+    }
+
+    /// See [`std::fs::OpenOptions::truncate`].
+    pub fn truncate(&mut self, value: bool) -> &mut Self {
+        self.truncate = value; self
+    }
+
+    /// See [`std::fs::OpenOptions::open`].
+    pub fn open<P: AsRef<Path>>(&self, path: P) -> io::Result<File> {
+        match with_backend(|b| b.open(path.as_ref(), self)) {
+            Some(result) => result.map(|handle| File { inner: Inner::Backend(handle) }),
+            None => {
+                let mut options = std::fs::OpenOptions::new();
+                options.read(self.read).write(self.write).create(self.create).truncate(self.truncate);
+                options.open(path).map(|file| File { inner: Inner::Real(file) })
+            },
+        }
+    }
+}
+
+//-----------------------------------------------------------------------------
+
+#[derive(Debug)]
+enum Inner {
+    Real(std::fs::File),
+    Backend(u64),
+}
+
+/// Look-alike of [`std::fs::File`] with the operations used in this crate.
+#[derive(Debug)]
+pub struct File {
+    inner: Inner,
+}
+
+fn no_backend() -> io::Error {
+    io::Error::new(io::ErrorKind::Other, "verif_io: the backend of this file is no longer installed")
+}
+
+impl Read for File {
+    fn read(&mut self, buf: &mut [u8]) -> io::Result<usize> {
+        match &mut self.inner {
+            Inner::Real(file) => file.read(buf),
+            Inner::Backend(handle) => with_backend(|b| b.read(*handle, buf)).unwrap_or_else(|| Err(no_backend())),
+        }
+    }
+}
+
+impl Write for File {
+    fn write(&mut self, buf: &[u8]) -> io::Result<usize> {
+        match &mut self.inner {
+            Inner::Real(file) => file.write(buf),
+            Inner::Backend(handle) => with_backend(|b| b.write(*handle, buf)).unwrap_or_else(|| Err(no_backend())),
+        }
+    }
+
+    fn flush(&mut self) -> io::Result<()> {
+        match &mut self.inner {
+            Inner::Real(file) => file.flush(),
+            Inner::Backend(handle) => with_backend(|b| b.flush(*handle)).unwrap_or_else(|| Err(no_backend())),
+        }
+    }
+}
+
+impl Seek for File {
+    fn seek(&mut self, pos: SeekFrom) -> io::Result<u64> {
+        match &mut self.inner {
+            Inner::Real(file) => file.seek(pos),
+            Inner::Backend(handle) => with_backend(|b| b.seek(*handle, pos)).unwrap_or_else(|| Err(no_backend())),
+        }
+    }
+}
+
+impl Drop for File {
+    fn drop(&mut self) {
+        if let Inner::Backend(handle) = self.inner {
+            let _ = with_backend(|b| b.close(handle));
+        }
+    }
+}
+
+//-----------------------------------------------------------------------------
+
+/// One `mmap()` or `munmap()` call as seen by the wrappers in [`sys`].
+#[derive(Clone, Copy, Debug, PartialEq, Eq)]
+pub enum MapCall {
+    /// `mmap()` with the requested length in bytes, the protection flags, the mapping flags, and the returned address.
+    Map { len: usize, prot: i32, flags: i32, addr: usize },
+    /// `mmap()` that was refused by [`fail_mmap_after`] with the requested length in bytes.
+    Refused { len: usize },
+    /// `munmap()` with the address, the length in bytes, and the return value.
+    Unmap { addr: usize, len: usize, ret: i32 },
+}
+
+thread_local! {
+    static MAP_LOG: RefCell<Option<Vec<MapCall>>> = RefCell::new(None);
+    static MAP_FAIL: Cell<Option<(usize, i32)>> = Cell::new(None);
+}
+
+/// Starts (or restarts) logging the mapping calls of the current thread.
+pub fn start_map_log() {
+    MAP_LOG.with(|log| *log.borrow_mut() = Some(Vec::new()));
+}
+
+/// Stops logging and returns the calls logged since [`start_map_log`].
+pub fn take_map_log() -> Vec<MapCall> {
+    MAP_LOG.with(|log| log.borrow_mut().take()).unwrap_or_default()
+}
+
+/// Makes the `mmap()` call after `calls` further successful ones fail with the given `errno`.
+///
+/// The failure is one-shot. Passing [`None`] disarms it.
+pub fn fail_mmap_after(setting: Option<(usize, i32)>) {
+    MAP_FAIL.with(|f| f.set(setting));
+}
+
+fn log_map_call(call: MapCall) {
+    let _ = MAP_LOG.try_with(|log| {
+        if let Some(calls) = log.borrow_mut().as_mut() {
+            calls.push(call);
+        }
+    });
+}
+
+/// The subset of `libc` used by `MemoryMap`, with wrapped `mmap()` and `munmap()`.
+pub mod sys {
+    pub use libc::{c_int, c_void, off_t, size_t, MAP_FAILED, MAP_SHARED, PROT_READ, PROT_WRITE};
+
+    use super::{log_map_call, MapCall, MAP_FAIL};
+
+    /// See `libc::mmap`.
+    ///
+    /// # Safety
+    ///
+    /// As `libc::mmap`.
+    pub unsafe fn mmap(addr: *mut c_void, len: size_t, prot: c_int, flags: c_int, fd: c_int, offset: off_t) -> *mut c_void {
+        let refuse = MAP_FAIL.try_with(|f| {
+            match f.get() {
+                Some((0, errno)) => { f.set(None); Some(errno) },
+                Some((calls, errno)) => { f.set(Some((calls - 1, errno))); None },
+                None => None,
+            }
+        }).unwrap_or(None);
+        if let Some(errno) = refuse {
+            *libc::__errno_location() = errno;
+            log_map_call(MapCall::Refused { len });
+            return MAP_FAILED;
+        }
+        let result = libc::mmap(addr, len, prot, flags, fd, offset);
+        log_map_call(MapCall::Map { len, prot, flags, addr: result as usize });
+        result
+    }
+
+    /// See `libc::munmap`.
+    ///
+    /// # Safety
+    ///
+    /// As `libc::munmap`.
+    pub unsafe fn munmap(addr: *mut c_void, len: size_t) -> c_int {
+        let ret = libc::munmap(addr, len);
+        log_map_call(MapCall::Unmap { addr: addr as usize, len, ret });
+        ret
+    }
+}
+
+//-----------------------------------------------------------------------------
